@@ -962,6 +962,20 @@ func init() {
 					}
 				}
 			}
+			// shared descriptions with groups of unequal size (rows of different lengths)
+			rn := []int{3, 6}
+			if tier == "thorough" {
+				rn = []int{3, 4, 6, 8, 10}
+			}
+			for _, n := range rn {
+				for _, structure := range []string{"ragged", "ragged-rev"} {
+					for _, dir := range []string{"fwd", "bwd"} {
+						j := mkJob(".ZZ_C15_Cycle", shellSetup, "n", itoa(n), "lens", "1", "structure", structure, "dir", dir)
+						j.Reach = []string{"cycled"}
+						jobs = append(jobs, j)
+					}
+				}
+			}
 			return jobs
 		},
 		Assumptions: []string{
